@@ -24,8 +24,52 @@ from decimal import MAX_EMAX, MIN_EMIN, Context, Decimal
 from . import common
 
 PROP = "C20"
-LEAN_MODULES = ["MiciVerif.Props.C20"]
+LEAN_MODULES = ["MiciVerif.Props.C20", "MiciVerif.Props.C20S", "MiciVerif.Props.C20R",
+                "MiciVerif.Props.C20RS"]  # C20R + C20RS (rounding theorems, B6)
 LEAN_EXTRA = ["MiciVerif.Model.LogRep", "MiciVerif.Lemmas.LogRepReal", "MiciVerif.Proto"]
+# Generated/UtilsSrc.lean: utils.py translated to Lean on every run; Props/C20S.lean proves
+# generated = model (src_*_eq_model) and transports the C20 theorems to the generated definitions
+GENERATED = ["pysrc"]
+
+
+def src_obligation_status(ctx, module: str) -> list[str]:
+    """Names of the broken `src_*` obligations of a Props module.  When the module no longer builds
+    `./check` marks all its theorems unchecked; the Lean errors in the build log tell which theorems
+    really fail (an error inside the generated file itself leaves all of them broken).  Recorded in
+    the evidence (`src_obligations_broken`) and used to escalate the failing-input search."""
+    import re
+
+    broken = [o["theorem"] for o in ctx.obligations if not o["ok"] and ".src_" in o["theorem"]
+              and o["theorem"].startswith(module.replace("MiciVerif.Props.", "MiciVerif.") + ".")]
+    if not broken:
+        return []
+    rel = module.replace(".", "/") + ".lean"
+    lines = (common.LEAN / rel).read_text().splitlines()
+    precise = []
+    for m in re.finditer(re.escape(rel) + r":(\d+):\d+: error|error: " + re.escape(rel) + r":(\d+):", ctx.build_log or ""):
+        ln = int(m.group(1) or m.group(2))
+        for i in range(min(ln, len(lines)) - 1, -1, -1):
+            mm = re.match(r"^theorem\s+(\S+)", lines[i])
+            if mm:
+                if mm.group(1) not in precise:
+                    precise.append(mm.group(1))
+                break
+            if re.match(r"^example\b", lines[i]):
+                break
+    gen_error = "MiciVerif/Generated/" in (ctx.build_log or "") and "error" in (ctx.build_log or "") and not precise
+    out = precise if precise and not gen_error else [b.rsplit(".", 1)[1] for b in broken]
+    ctx.extra["src_obligations_broken"] = out
+    ctx.extra["src_escalation"] = "failing-input search run with tripled budgets (at most the thorough ones) because a src_* obligation is broken"
+    ctx.count("search_escalated_by_src_obligation")
+    return out
+
+
+def _n(ctx, quick: int, thorough: int) -> int:
+    """Case budget; tripled in the quick tier (at most the thorough one) as soon as a `src_*`
+    obligation is broken (escalation that keeps a quick run within a few minutes)."""
+    if ctx.extra.get("src_obligations_broken") and ctx.quick:
+        return min(thorough, 3 * quick)
+    return ctx.n(quick, thorough)
 
 INF = float("inf")
 NAN = float("nan")
@@ -583,7 +627,181 @@ def oracle_weights(case):
     return [f"energies new={h_new!r} others={h_tree_others}: {b}" for b in bad]
 
 
+# ======================================================================================
+# >>> B6 BEGIN — measured error of the real code vs the PROVEN rounding bound (Props/C20R.lean)
+#
+# The theorems of Props/C20R.lean bound |computed - exact| for the model definitions under the
+# standard model of floating-point arithmetic (every primitive call and every + / - returns the
+# exact result times (1+d), |d| <= u; no underflow, no overflow; comparisons exact).  Here each
+# bound is instantiated at u = 2^-52 (round-to-nearest + and - have u = 2^-53; a libm whose
+# exp/log/log1p/expm1 are within 1 ulp has relative error <= 2^-52 — ASSUMED, see LEVEL_NOTE) and
+# compared with the error of the real function measured against the 80-digit oracle.  A measured
+# error above the proven bound is a violation with the concrete argument: either the code does not
+# compute what the model computes (branch / formula changed) or an assumption is false.
+# Inputs on which some operation under- or overflows are outside the theorems and are skipped.
+
+U_PROVEN = 2.0 ** -52
+MIN_NORMAL = 2.2250738585072014e-308
+BOUND_STATS = {"checked": 0, "skipped_under_overflow": 0, "max_ratio": {}, "argmax": {}, "above_bound_at_2^-53": 0}
+
+
+def _in_standard_model(calls, final) -> bool:
+    """No primitive result (recomputed with the same libm) and not the final value is inf/nan, a flushed zero
+    or a subnormal."""
+    if final is None or math.isnan(final) or math.isinf(final):
+        return False
+    for fn, x in calls:
+        if math.isnan(x) or math.isinf(x):
+            return False
+        try:
+            r = getattr(math, fn)(x)
+        except (ValueError, OverflowError):
+            return False
+        if math.isnan(r) or math.isinf(r):
+            return False
+        if r == 0.0 and not (x == 0.0 or (fn == "log" and x == 1.0)):
+            return False
+        if r != 0.0 and abs(r) < MIN_NORMAL:
+            return False
+    return True
+
+
+def proven_bound(name, args, exact, u):  # noqa: C901, PLR0911
+    """(absolute error bound as Decimal, theorem name) for the MODEL under the standard model with unit round-off
+    u, or (None, reason).  Mirrors the statements of Props/C20R.lean literally."""
+    U = Decimal(u)
+    one = Decimal(1)
+    if name == "l1p":
+        v = args[0]
+        if v <= 0:
+            return CTX.multiply(2 * U / (one - U), abs(exact)), "log1pExp_rounded_nonpos"
+        return CTX.multiply((3 + U) * U / (one - U), abs(exact)), "log1pExp_rounded_pos"
+    if name == "l1m":
+        v = args[0]
+        if not v < 0:
+            return None, "specials"
+        X = abs(exact)
+        uniform = CTX.multiply((3 + U) * U / (one - U), X)
+        if v > -LOG2:  # the branch the MODEL takes (LOG2 is the same rounded constant as LOG_2 of utils.py)
+            b = CTX.add(U * (one + U) / (one - U), CTX.multiply(U, X))
+            return min(b, uniform), "log1mExp_rounded_near"
+        E = CTX.exp(D(v))
+        den = one - E * (one + U)
+        if den <= 0:
+            return uniform, "log1mExp_rounded"
+        b = CTX.multiply(U * (one + U) * (one - E / 2) / den + U, X)
+        return min(b, uniform), "log1mExp_rounded_far"
+    a, b_ = args
+    if name == "lse":
+        p, o = (a, b_) if a > b_ else (b_, a)
+        S = d_ln1p(CTX.exp(CTX.subtract(D(o), D(p))))
+        corr = (one + U) * (2 * U / (one - U) * S + (one + U) / (one - U) * (U / (2 * (one - U))))
+        return CTX.add(CTX.multiply(U, abs(exact)), corr), "logSumExp_rounded"
+    if name == "lde":
+        if not b_ < a:
+            return None, "specials"
+        G = abs(d_l1m(CTX.subtract(D(b_), D(a))))
+        rho = (3 + U) * U / (one - U)
+        corr = (one + U) * (rho * G + (one + rho) * (U / (one - U)))
+        return CTX.add(CTX.multiply(U, abs(exact)), corr), "logDiffExp_rounded"
+    if name in ("mul", "div"):
+        return CTX.multiply(U, abs(exact)), "logRep_mul_div_rounded"
+    if name == "acc":  # args = (l0, n)
+        l0, n = args
+        m = max(abs(D(l0)), abs(exact)) + 3
+        return CTX.multiply(CTX.subtract(CTX.power(one + U, Decimal(n)), one), m), "iadd_sequence_rounded"
+    return None, "no theorem"
+
+
+def oracle_bound(case):  # noqa: C901, PLR0911, PLR0912
+    """Measured |computed - exact| of the real code <= proven bound of the model at u = 2^-52."""
+    if "items" in case:  # x += y1; ...; x += yn with LogRepFloat operands of finite log-values only
+        l0 = unfx(case["l0"])
+        items = [(k, unfx(x)) for k, x in case["items"]]
+        if not items or not math.isfinite(l0) or any(k != "R" or not math.isfinite(x) for k, x in items):
+            return []
+        name, args = "acc", (l0, len(items))
+        with Recorder() as r:
+            try:
+                v = impl_acc(l0, items)
+            except Exception:  # noqa: BLE001
+                return []  # reported by oracle_acc
+            calls = list(r.calls)
+        exact = exact_acc(l0, items)
+        call = f"x = LogRepFloat(log_val={l0!r}); x += LogRepFloat(log_val=l) for l in {[x for _, x in items]!r} -> log_val"
+    elif "op" in case:  # LogRepFloat operator between two LogRepFloats with finite log-values
+        la, lb = unfx(case["a"]), unfx(case["b"])
+        op = case["op"]
+        name = {"add": "lse", "radd": "lse", "iadd": "lse", "sub": "lde", "mul": "mul", "rmul": "mul", "div": "div"}.get(op)
+        if name is None or case["kind"] != "R" or not (math.isfinite(la) and math.isfinite(lb)):
+            return []
+        if name == "lde" and not lb < la:
+            return []
+        with Recorder() as r:
+            k, v, _exc = impl_op(op, la, "R", lb)
+            calls = list(r.calls)
+        if k != "R":
+            return []  # reported by oracle_logrep
+        args = (la, lb)
+        if name in ("mul", "div"):
+            exact = CTX.add(D(la), D(lb)) if name == "mul" else CTX.subtract(D(la), D(lb))
+            if abs(exact) > Decimal("1.7e308"):
+                return []
+        else:
+            exact = exact_helper(name, la, lb)
+        call = f"LogRepFloat(log_val={la!r}) {op} LogRepFloat(log_val={lb!r}) -> log_val"
+    else:
+        name = case["name"]
+        args = tuple(unfx(x) for x in case["args"])
+        if not all(math.isfinite(x) for x in args):
+            return []
+        v, exc, calls = impl_helper(name, *args)
+        if exc is not None:
+            return []  # reported by oracle_helper
+        exact = exact_helper(name, *args)
+        call = f"{HELPERS[name]}({', '.join(repr(x) for x in args)})"
+    if not isinstance(exact, Decimal):
+        return []
+    if len(args) == 2 and name in ("lse", "lde") and not math.isfinite(args[0] - args[1]):
+        BOUND_STATS["skipped_under_overflow"] += 1
+        return []
+    if not _in_standard_model(calls, v):
+        BOUND_STATS["skipped_under_overflow"] += 1
+        return []
+    bound, thm = proven_bound(name, args, exact, U_PROVEN)
+    if bound is None:
+        return []
+    err = abs(CTX.subtract(D(v), exact))
+    BOUND_STATS["checked"] += 1
+    if bound > 0:
+        ratio = float(CTX.divide(err, bound))
+        if ratio > BOUND_STATS["max_ratio"].get(thm, -1.0):  # largest measured / proven, per theorem
+            BOUND_STATS["max_ratio"][thm], BOUND_STATS["argmax"][thm] = ratio, call
+    half, _ = proven_bound(name, args, exact, 2.0 ** -53)
+    if half is not None and err > half:
+        BOUND_STATS["above_bound_at_2^-53"] += 1
+    if err > bound * (1 + Decimal("1e-12")):
+        return [f"{call} = {v!r}: |computed - exact| = {float(err):.4g} exceeds the PROVEN bound {float(bound):.4g} of "
+                f"theorem C20R.{thm} at u = 2^-52 ({float(CTX.divide(err, bound)) if bound > 0 else INF:.3g} x; exact {exact:.25e}; "
+                f"no under/overflow on this input) — the code does not compute what the model computes, or libm is off by > 1 ulp"]
+    return []
+
+
+def bound_stats_into(ctx):
+    ctx.extra["proven_bound_vs_measured"] = dict(BOUND_STATS, max_ratio=dict(BOUND_STATS["max_ratio"]),
+                                                 argmax=dict(BOUND_STATS["argmax"]), u="2^-52")
+    for k in ("checked", "skipped_under_overflow", "above_bound_at_2^-53"):
+        ctx.count(f"proven_bound:{k}", BOUND_STATS[k])
+        BOUND_STATS[k] = 0
+    BOUND_STATS["max_ratio"], BOUND_STATS["argmax"] = {}, {}
+
+
+# <<< B6 END
+# ======================================================================================
+
+
 ORACLES = {
+    "bound": oracle_bound,  # B6
     "helper": oracle_helper,
     "range": oracle_range,
     "logrep": oracle_logrep,
@@ -655,6 +873,7 @@ def parse_model(line):
 
 def run(ctx: common.Ctx):  # noqa: C901, PLR0912, PLR0915
     rng = common.rng_for(ctx)
+    src_obligation_status(ctx, "MiciVerif.Props.C20S")
     ctx.rule = (
         "helpers: grid over the whole double range (powers of two, branch points +-2 ulp, extremes, -1e-20, -1e-300, "
         "+-inf, nan, random); pairs incl. equal / adjacent / infinite operands; non-trivial = finite argument(s). "
@@ -666,7 +885,9 @@ def run(ctx: common.Ctx):  # noqa: C901, PLR0912, PLR0915
         f"model vs implementation values within {ULP_MODEL} ulp, implementation vs 80-digit oracle within {ULP_BUDGET} ulp "
         "(two-argument functions return pivot + correction: ulp of max(|result|, |pivot|, |correction|), plus the "
         "amplification |f'(d)| |d| 2^-52 of the single rounding of d = val_small - val_pivot when that subtraction is inexact)",
-        "theorems are over exact reals; float accuracy is validated, not proved",
+        "value/range theorems (Props/C20) are over exact reals; rounding theorems (Props/C20R) are in the standard model "
+        "fl(op) = op (1+d), |d| <= u, no under/overflow; that glibc's exp/log/log1p/expm1 are within 1 ulp (u = 2^-52) is assumed, "
+        "measured error <= proven bound at u = 2^-52 is checked on every explored helper / operator case without under/overflow",
     ]
     # corpus (minimised past failures) first
     d = common.VERIF / "corpus" / PROP
@@ -676,7 +897,7 @@ def run(ctx: common.Ctx):  # noqa: C901, PLR0912, PLR0915
             if obj.get("oracle") in ORACLES:
                 ctx.count("corpus")
                 check(ctx, obj["oracle"], obj["case"], obj.get("signature", "corpus"))
-    grid = base_grid(rng, ctx.n(3000, 40000))
+    grid = base_grid(rng, _n(ctx, 3000, 40000))
     reqs, metas = [], []
     for v in grid:
         for name in ("l1p", "l1m"):
@@ -684,7 +905,7 @@ def run(ctx: common.Ctx):  # noqa: C901, PLR0912, PLR0915
             metas.append(("helper", name, (v,)))
     pairs = []
     small = [x for x in grid if abs(x) < 50 or math.isinf(x)][:200]
-    for _ in range(ctx.n(8000, 80000)):
+    for _ in range(_n(ctx, 8000, 80000)):
         a = grid[int(rng.integers(len(grid)))]
         r = rng.random()
         if r < 0.15:
@@ -712,7 +933,7 @@ def run(ctx: common.Ctx):  # noqa: C901, PLR0912, PLR0915
     ops_rr = ["add", "iadd", "sub", "mul", "div", "lt", "gt", "le", "ge", "eq", "ne", "ratio"]
     ops_rp = ["add", "iadd", "sub", "mul", "div", "lt", "gt", "le", "ge", "eq", "ne", "rsub", "rdiv", "neg", "val", "ofval"]
     opcases = []
-    for _ in range(ctx.n(8000, 60000)):
+    for _ in range(_n(ctx, 8000, 60000)):
         la = logvals[int(rng.integers(len(logvals)))] if rng.random() < 0.5 else float(rng.uniform(-900, 900))
         if rng.random() < 0.6:
             r = rng.random()
@@ -727,7 +948,7 @@ def run(ctx: common.Ctx):  # noqa: C901, PLR0912, PLR0915
         metas.append(("op", name, la, kind, xb))
     # accumulation sequences
     acccases = []
-    for _ in range(ctx.n(1000, 8000)):
+    for _ in range(_n(ctx, 1000, 8000)):
         centre = float(rng.choice([0.0, -5.0, 30.0, -700.0, 700.0, -800.0, 800.0, -1e5, 1e5, -745.0]))
         spread = float(rng.choice([0.0, 1e-3, 1.0, 30.0]))
         n = int(rng.integers(1, 40))
@@ -782,6 +1003,7 @@ def run(ctx: common.Ctx):  # noqa: C901, PLR0912, PLR0915
             # direct oracles on every helper case
             check(ctx, "range", case, f"helper:{name}:range")
             check(ctx, "helper", case, f"helper:{name}:value")
+            check(ctx, "bound", case, f"helper:{name}:proven-bound")  # B6
             _ = ok
         elif meta[0] == "op":
             _, name, la, kind, xb = meta
@@ -803,6 +1025,7 @@ def run(ctx: common.Ctx):  # noqa: C901, PLR0912, PLR0915
             if name == "iadd" and kind == "R" and xb != -INF and xb < -745.0:
                 sig = "logrep:iadd-underflow"
             check(ctx, "logrep", case, sig)
+            check(ctx, "bound", case, f"logrep:{name}:proven-bound")  # B6
             if name == "add":
                 check(ctx, "logrep", {**case, "op": "radd"}, "logrep:radd")
             if name == "mul":
@@ -822,8 +1045,9 @@ def run(ctx: common.Ctx):  # noqa: C901, PLR0912, PLR0915
                 if merr != "1":
                     ctx.disagreement(f"accumulation raised {type(e).__name__}: {e}; model {mv!r}", case)
             check(ctx, "acc", case, acc_signature(case))
+            check(ctx, "bound", case, "logrep:iadd-sequence:proven-bound")  # B6
     # the pattern used by the multinomial transition
-    for _ in range(ctx.n(1500, 10000)):
+    for _ in range(_n(ctx, 1500, 10000)):
         base = float(rng.choice([0.0, 50.0, -50.0, 800.0, -800.0, 1e6, -1e6]))
         k = int(rng.integers(1, 6))
         hs = [base + float(rng.normal()) * float(rng.choice([0.1, 3.0, 50.0])) for _ in range(k)]
@@ -834,6 +1058,7 @@ def run(ctx: common.Ctx):  # noqa: C901, PLR0912, PLR0915
                                 "underflowing" if base >= 746 else "moderate"))
         check(ctx, "weights", case, "logrep:weight-ratio")
     ctx.extra.pop("_checked", None)
+    bound_stats_into(ctx)  # B6
     value_semantics_section(ctx, rng)
 
 
@@ -843,7 +1068,7 @@ def value_semantics_section(ctx, rng):
     the exact value.  Sequences of in-place accumulations are part of the property's quantifier."""
     from mici.utils import LogRepFloat
 
-    for _ in range(ctx.n(400, 4000)):
+    for _ in range(_n(ctx, 400, 4000)):
         logs = [float(rng.choice([-INF, -800.0, -3.0, 0.0, 2.5, 700.0])) + (float(rng.normal()) if rng.random() < 0.7 else 0.0)
                 for _ in range(4)]
         if rng.random() < 0.5:
@@ -916,8 +1141,32 @@ LEVEL_TEXT = (
     "min(num/den,1) agree with real arithmetic on the represented values incl. zero weights (-inf) and equal "
     "differences (-inf, not NaN) (val_toLog, ofVal_eq, logSumExp_toLog, logDiffExp_toLog, operators_agree, "
     "mixed_operators_agree, iadd_agrees, weightRatio_agrees); the six comparisons are order-isomorphic "
-    "(comparisons_agree). All theorems full; PARTIAL as a property: 'near machine precision' is about IEEE rounding, "
-    "which the theorems do not cover - it is validated against an 80-digit decimal oracle (<= 4 ulp)."
+    "(comparisons_agree). ROUNDING (Props/C20R, 22 theorems about the same model definitions interpreted in the standard "
+    "model of floating-point arithmetic: every primitive call and every + / - returns exact*(1+d), |d| <= u, d arbitrary; "
+    "LOG_2 itself rounded; no under/overflow; comparisons exact): for ALL real arguments the computed value c is finite and "
+    "log1p_exp: |c-L| <= 2u/(1-u) L (val<=0), (3+u)u/(1-u) L (val>0) (log1pExp_rounded_nonpos/_pos, log1pExp_rounded); "
+    "log1m_exp, val<0, whichever branch the rounded guard selects: |c-X| <= (3+u)u/(1-u) |X| (log1mExp_rounded), per branch "
+    "u(1+u)/(1-u) + u|X| (expm1 branch, log1mExp_rounded_near) and (u(1+u)(1-E/2)/(1-E(1+u)) + u)|X|, E = e^val <= 3/5 "
+    "(log1p branch, log1mExp_rounded_far); the guards matter: with the pre-fix guard an admissible rounding gives "
+    "absolute error log 2 at val = -log(1+u) (no bound c*u*|X| with 3c*sqrt(u) < log 2) and another one a raised "
+    "ValueError (old_guard_loses_accuracy, old_guard_no_small_bound), and log(-expm1(val)) far from 0 can return 0 "
+    "(expm1_formula_loses_accuracy_far), and log_sum_exp with the smaller operand as pivot has error u(L - val1) >= u(val2 - val1) "
+    "for one admissible rounding (unordered_pivot_loses_accuracy); log_sum_exp: |c-L| <= u|L| + (1+u)(2u/(1-u) S + (1+u)/(1-u) u/(2(1-u))) <= u|L| + 3u, "
+    "S = L - max(a,b) (logSumExp_rounded, _simple); log_diff_exp, b<a: |c-D| <= u|D| + (1+u)(rho|G| + (1+rho)u/(1-u)), "
+    "rho = (3+u)u/(1-u), G = D - a (logDiffExp_rounded; cancellation between a and G is not hidden: the bound is relative to "
+    "max(|D|,|G|) plus an absolute ~u, i.e. a relative error of the weight), equal values give -inf and a<b nan "
+    "(logDiffExp_rounded_specials); LogRepFloat + += - * / on finite log-values as corollaries (logRep_add_rounded, "
+    "logRep_sub_rounded, logRep_mul_div_rounded); zero weights: log_sum_exp(-inf, b) is b up to one rounding, (-inf, -inf) gives "
+    "-inf, a - 0 is a (logSumExp_rounded_zero_weight, logDiffExp_rounded_zero_weight); every sequence x += y1; ...; x += yn of "
+    "LogRepFloats with finite log-values: |c - L| <= ((1+u)^n - 1)(max(|l0|,|L|) + 3), L = log(e^l0 + sum e^li) "
+    "(iadd_sequence_rounded), x += v with a plain v > 0: u|L| + 3u + (1+u)u|log v|, v = 0 leaves x unchanged "
+    "(logRep_iadd_plain_rounded). The same bounds for the definitions generated from the source of utils.py on this run "
+    "(Props/C20RS.lean: src_LOG_2_rounded, src_log1p_exp_rounded, src_log1m_exp_rounded, "
+    "src_log_sum_exp_rounded, src_log_diff_exp_rounded, src_operators_rounded, through the equalities of Props/C20S). "
+    "All theorems full. PARTIAL as a property: 'near machine precision' is proved "
+    "in the standard model, not for IEEE binary64 itself: underflow/overflow, the accuracy of libm and the plain-float "
+    "fallbacks (mixed operators) are outside the theorems - validated against an 80-digit decimal oracle (<= 4 ulp), and the "
+    "measured error of the real code is compared with the proven bound at u = 2^-52 on every explored case."
 )
 LEVEL_NOTE = (
     "Trusted: Lean kernel + Mathlib reals (axioms propext, Classical.choice, Quot.sound); the XReal semantics of "
@@ -926,6 +1175,10 @@ LEVEL_NOTE = (
     "(sequence of primitive calls observed by wrapping mici.utils.exp/log/log1p/expm1) / arguments / value; Lean's Float "
     "has no log1p/expm1, they are emulated with Kahan's formulas (few ulp), hence the 16 ulp model tolerance. Float "
     "accuracy (<= 4 ulp vs decimal oracle) and absence of OverflowError/ValueError over the explored grid are testing. "
+    "Rounding theorems (Props/C20R): trusted is the standard model itself (Model/LogRepRounded.lean: relative error <= u per "
+    "operation, arbitrary otherwise, no under/overflow, exact comparisons) and, for the comparison 'measured error <= proven "
+    "bound', the ASSUMPTION that glibc's exp/log/log1p/expm1 are within 1 ulp (relative error <= 2^-52 = the u used; + and - are "
+    "correctly rounded, 2^-53) - inputs on which an operation under/overflows are skipped and counted. "
     "Not claimed (intended behaviour, see tests/test_utils.py test_underflow/test_overflow): the plain-float fallbacks "
     "(mixed operators and comparisons with plain numbers go through .val = exp(log_val) rounded to a double, so "
     "LogRepFloat(log_val=-1e6) == 0.0 and LogRepFloat(log_val=1e6) == inf; a - b with a < b returns the plain negative "
@@ -933,5 +1186,16 @@ LEVEL_NOTE = (
 )
 TECHNIQUE = (
     "Lean 4 + Mathlib real analysis for a primitive-polymorphic model (value and range theorems from one statement), "
-    "Float execution of the same model with call traces vs instrumented implementation, 80-digit decimal oracle"
+    "Float execution of the same model with call traces vs instrumented implementation, 80-digit decimal oracle; "
+    "rounding-error analysis in the standard model of floating-point arithmetic as a third interpretation of the same "
+    "definitions (perturbation environment bounded by u), proven bound vs measured error"
 )
+
+# --- source translator tie (tools/extractors/pysrc.py, Props/C20S.lean) ---
+LEVEL_TEXT += (
+    ' SOURCE TIE (Props/C20S.lean): on every run tools/extractors/pysrc.py translates utils.py (log1p_exp, log1m_exp, log_sum_exp, log_diff_exp, LOG_2, LogRepFloat.__init__/.val and all 16 operator/comparison methods) and the multinomial _weight_ratio of transitions.py into shallow Lean definitions over the same record of primitives; 25 theorems src_<name>_eq_model prove generated = model for every interpretation of the primitives (so the model is no longer tied to the code by sampling only), and src_*_eq_ideal / src_no_exception / src_operators_agree / src_iadd_agrees / src_comparisons_agree / src_weight_ratio_agrees restate the main C20 theorems for the generated definitions.'
+)
+LEVEL_NOTE += (
+    " The translator's conventions (documented in its docstring) are trusted: a > b is lt b a, a != b is !(eq a b), an if on a negated test swaps branches, raise is the value err, try: exp(x) except OverflowError: inf is expSat, a ScalarLike operand is split by dynamic type. A function outside the supported subset is emitted as <name>_translated = false and the theorem fails (fail closed). A broken src_* obligation triples the budgets of the failing-input search."
+)
+TECHNIQUE += ' + source-to-Lean translation of utils.py with generated = model equalities re-proved on every run'
